@@ -164,6 +164,11 @@ def units(tier):
                        wall_s=120, timeout_ms=8000, patched=True))
         us.append(Unit('C01/S/group_pn_linesearch[intercept=%s]' % fi, ST.u_pn_linesearch,
                        dict(X='corr32', fit_intercept=fi, group=True), wall_s=120, timeout_ms=8000, patched=True))
+    # state kept across outer iterations (accelerator buffers, working-set bookkeeping) must not corrupt the buffers the
+    # certificate is computed from: two outer iterations, changing one-feature working set, a proposal in each
+    c2 = dict(solver='AndersonCD', datafit='Quadratic', penalty='L1', X='corr33', max_iter=2, max_epochs=1, max_epochs_unpatched=7, acc_stub=1, p0=1, fit_intercept=False, ws_strategy='subdiff', warm=True, w0_concrete=[2.0, 0.0, 0.0], ylabels=[1.0, -2.0, 3.0], acc_catalogue=[1.0, -0.5, 0.0], two_iter=True)
+    us.append(Unit('C01/D/two-iterations[%s]' % ','.join('%s=%s' % (k, c2[k]) for k in sorted(c2)), ST.u_run,
+                   dict(cfg=c2, want=('buffer', 'history')), wall_s=200, max_paths=6000, timeout_ms=8000, patched=True))
     return us
 
 
